@@ -316,7 +316,8 @@ def native_crosscheck(results, tier, seed, known, prop, repo=REPO):
 
 def run_canaries(prop, tier):
     """must-fail self-check: seeded changes known to break `prop` are applied to a scratch copy; the check must alarm.
-    quick: the fastest seed (if it takes <= 20 s); thorough: all of them."""
+    quick: the fastest seed (if it takes <= 20 s); thorough: all of them, fastest first, within a time budget (PYVC_CANARY_BUDGET, default 2400 s).
+    A seed is first tried on the harness family that caught it when it was kept (--only), then on the whole check."""
     if os.environ.get("PYVC_NO_CANARIES"):
         return []
     from . import canary
@@ -329,8 +330,15 @@ def run_canaries(prop, tier):
             return 1e9
     if tier != "thorough":
         seeds = [s for s in sorted(seeds, key=lambda s: secs(s[1])) if secs(s[1]) <= 20][:1]
+    else:
+        seeds = sorted(seeds, key=lambda s: secs(s[1]))
     out = []
+    budget = int(os.environ.get("PYVC_CANARY_BUDGET", "2400") or 2400)   # thorough tier: fastest first, no new canary after this many seconds
+    t_all = time.time()
     for name, d in seeds:
+        if time.time() - t_all > budget:
+            out.append({"seed": name, "status": "skipped", "detail": f"canary time budget of {budget} s used up", "secs": 0})
+            continue
         t0 = time.time()
         status, detail = canary.run_seed(prop, d)
         out.append({"seed": name, "status": status, "detail": detail, "secs": round(time.time() - t0, 1)})
